@@ -83,7 +83,31 @@ def _hash_check(prop, n_quick, n_thorough):
     return run
 
 
+def _rl_check(prop, strict, n_quick, n_thorough, text):
+    def run():
+        t = Timer()
+        res = runner.Result(prop)
+        runner.model_stage(res, prop, "rl", "MC_RL", strict=strict, shared=True)
+        runner.trace_stage(res, prop, "rl", "drivers_rl", "Trace_RL", n_quick if Q else n_thorough)
+        return runner.finish(res, text + RL_BIND,
+            "case = (operation, dense content, arguments); non-trivial = every claimed case (each is a distinct run layout / index / operand combination); "
+            "cases outside the claim region are enumerated but neither executed nor judged (out_of_claim)",
+            A_REGIME + ["run boundaries and run values of every produced run-length object are read from the public starts/ends/values (1-D) or the "
+                        "_indices/_values rows (2-D, ragged) to judge the encoding predicates"], t.s())
+    return run
+
+
+RL_BIND = (" Level A is the dense sequence the encoding denotes (spec/abs/RunLength.tla, RunLength2d.tla); the encoding promises are predicates judged on the "
+           "observed run boundaries / values of EVERY run-length result: Consistent (they decode to the dense content), Canonical (start at 0, strictly "
+           "increasing, end at the length), NoAdjEq where promised, lock-step for ragged results. TLC enumerates ALL dense sequences up to the bound over a small "
+           "value set per dtype (hence every run layout and every relative alignment of two operands' run boundaries) x the argument grammar; every claimed case "
+           "state is executed against the real classes; seeded drivers add longer arrays, all dtypes and NaN, judged by TLC (Trace_RL).")
+
 CHECKS = {
+    "C14": _rl_check("C14", True, 4000, 40000, "Encoding round trip: decode(encode(a)) = a element-wise (NaN = NaN), dtype, len/size/shape, numpy conversion; EncoderLemma on the model."),
+    "C15": _rl_check("C15", False, 4000, 40000, "Indexing equals indexing the dense array: integers, lists, dense and run-length boolean masks, every slice incl. out-of-range bounds and negative steps, start/stop windows."),
+    "C16": _rl_check("C16", True, 4000, 40000, "Arithmetic equals arithmetic on the dense arrays: unary, two run-length operands with unrelated run boundaries, scalars on either side, reductions, histogram (oracle = numpy on the decoded array), concatenation; operands unchanged."),
+    "C17": _rl_check("C17", False, 4000, 40000, "2-D and ragged run-length arrays behave as one run-length array per row: constructors, len/shape/size, row / element / column / column-range selection in the claimed region, row and column reductions, ravel, concatenation, ufuncs with scalars and column vectors on either side."),
     "C11": _hash_check("C11", 3000, 40000),
     "C12": _hash_check("C12", 3000, 40000),
     "C19": c19,
